@@ -280,6 +280,7 @@ structure DCall where
   due : Bool := false
   answered : Bool := false
   written : Bool := false
+  gated : Bool := false     -- stopped in the StreamContext callback: id reserved, not registered
 
 structure DConn where
   st : MuxOwn.St
@@ -349,7 +350,7 @@ def DS.release (ds : DS) (i : Nat) (c : DCall) : DS :=
     if c.park then ds.setCall i { c with parked := true } else ds.act c.conn (.relDone i) "relDone"
   else ds
 
-def DS.start (ds : DS) (typ : Char) (L : Nat) (held park : Bool) : DS :=
+def DS.start (ds : DS) (typ : Char) (L : Nat) (held park : Bool) (gate : Bool := false) : DS :=
   let k := ds.cc
   match ds.conns[k - 1]? with
   | none => ds.fail "bad-op"
@@ -363,6 +364,7 @@ def DS.start (ds : DS) (typ : Char) (L : Nat) (held park : Bool) : DS :=
       let c : DCall := { typ := typ, conn := k, L := L, held := held, park := park }
       let ds := { ds with calls := ds.calls ++ [c] }
       let ds := ds.setConn k fun cn => { cn with off := off' }
+      if gate then (ds.act k (.reserve i sid .user) "reserve").setCall i { c with gated := true } else
       let ds := (ds.act k (.reserve i sid .user) "reserve").act k (.register i) "register"
       if typ = 'b' then
         (ds.act k (.buildFailed i) "buildFailed").release i c
@@ -417,18 +419,39 @@ def DS.quiet (ds : DS) (k : Nat) : Bool :=   -- nothing of connection k is in th
   | none => false
   | some cn => cn.cur.isNone && !(ds.calls.any fun c => c.conn == k && c.due)
 
+/-- the StreamContext callback of call i returns: addCall, then on to the write slot -/
+def DS.ungate (ds : DS) (i : Nat) (c : DCall) : DS :=
+  if ¬ c.gated then ds else
+  let k := c.conn
+  let ds := ds.act k (.register i) "register"
+  let c := { c with gated := false }
+  match (ds.stOf k).pc i with
+  | .flight _ true false false =>
+      if ds.heldOn k then ds.setCall i { c with queued := true }
+      else ((ds.act k (.write i) "write").act k (.writeReturned i) "writeReturned").setCall i { c with written := true }
+  | _ => ds.setCall i c          -- addCall refused: ErrConnectionClosed (the id stays reserved)
+
 def DS.step (ds : DS) (w : String) : DS :=
   if ds.bad.isSome then ds else
+  let gate := w.startsWith "^"
+  let w := if gate then String.ofList (w.toList.drop 1) else w
   let held := w.startsWith "!"
   let w := if held then String.ofList (w.toList.drop 1) else w
   let park := w.endsWith "%"
   let w := if park then String.ofList (w.toList.dropLast) else w
-  let plain := ¬ held ∧ ¬ park
+  let plain := ¬ held ∧ ¬ park ∧ ¬ gate
   match w.toList with
   | 'q' :: r => match (String.ofList r).toNat? with
-      | some L => ds.start 'q' L held park
+      | some L => if gate ∧ held then ds.fail "bad-op" else ds.start 'q' L held park gate
       | none => ds.fail "bad-op"
-  | ['b'] => if held then ds.fail "bad-op" else ds.start 'b' 0 false park
+  | 's' :: r =>
+      match (String.ofList r).toNat? with
+      | some i =>
+        match ds.calls[i - 1]? with
+        | none => ds.fail "bad-op"
+        | some c => if i = 0 ∨ ¬ plain then ds.fail "bad-op" else (ds.ungate i c).settle c.conn
+      | none => ds.fail "bad-op"
+  | ['b'] => if held ∨ gate then ds.fail "bad-op" else ds.start 'b' 0 false park
   | '@' :: r => match (String.ofList r).toNat? with
       | some k => if plain ∧ 1 ≤ k ∧ k ≤ ds.conns.length then { ds with cc := k } else ds.fail "bad-op"
       | none => ds.fail "bad-op"
@@ -480,7 +503,7 @@ def DS.step (ds : DS) (w : String) : DS :=
         | none => ds.fail "bad-op"
         | some c =>
           let cur := match ds.conns[c.conn - 1]? with | some cn => cn.cur | none => none
-          if i = 0 ∨ ¬ plain ∨ c.typ ≠ 'q' ∨ c.held ∨ cur = some i then ds.fail "bad-op" else
+          if i = 0 ∨ ¬ plain ∨ c.typ ≠ 'q' ∨ c.held ∨ c.gated ∨ cur = some i then ds.fail "bad-op" else
           if c.queued then
             let ds := ds.act c.conn (.writeCancelled i) "writeCancelled"
             let c' := { c with queued := false }
